@@ -95,11 +95,19 @@ theorem C19_error_path (H : HandleOps σ) (amount : Nat)
   · have hframe := C19_wrapper_frame H amount body scope args vars st hbody hcaller
     rw [aliasRun_run H amount body scope args vars st h] at hframe ⊢
     simp only [h, if_false]
-    simp only [cleanup] at hframe ⊢
-    have hlen := length_eq_of_get_eq (nk_clear (hbnk _ _ (nk_publish H scope args (H.setCtx st scope) hnk)) scope)
-      hnk hframe
-    rw [hlen]
-    simp only [Nat.lt_irrefl, if_false]
+    have hlen := length_eq_of_get_eq
+      (a := (cleanup H scope (H.getCtx st) (publish H scope args vars (H.setCtx st scope)).1
+        (body (publish H scope args vars (H.setCtx st scope)).2.1
+              (publish H scope args vars (H.setCtx st scope)).2.2).2.1
+        (body (publish H scope args vars (H.setCtx st scope)).2.1
+              (publish H scope args vars (H.setCtx st scope)).2.2).2.2).1)
+      (nk_clear (hbnk _ _ (nk_publish H scope args (H.setCtx st scope) hnk)) scope) hnk hframe
+    have hnot : ¬ vars.length < (cleanup H scope (H.getCtx st) (publish H scope args vars (H.setCtx st scope)).1
+        (body (publish H scope args vars (H.setCtx st scope)).2.1
+              (publish H scope args vars (H.setCtx st scope)).2.2).2.1
+        (body (publish H scope args vars (H.setCtx st scope)).2.1
+              (publish H scope args vars (H.setCtx st scope)).2.2).2.2).1.length := by omega
+    rw [if_neg hnot]
     cases (body (publish H scope args vars (H.setCtx st scope)).2.1
                 (publish H scope args vars (H.setCtx st scope)).2.2).1 <;> rfl
 
